@@ -30,7 +30,7 @@ def parseTimeoutEv : List String → Option Ev
   | ["tick", t] => some (.tick (natOf t))
   | ["callCancel", f] => some (.callCancel (natOf f))
   | ["retCancel", f, r] => some (.retCancel (natOf f) (boolOf r))
-  | ["callShutdown"] => some .callShutdown
+  | ["callShutdown", w] => some (.callShutdown (boolOf w))
   | ["retShutdown"] => some .retShutdown
   | ["dshutdown"] => some .dshutdown
   | ["dshutdownRet"] => some .dshutdownRet
